@@ -53,16 +53,32 @@ type HeapMon struct {
 	nextID int
 }
 
+// guarded is the comparator as the LIBRARY gets it: every element the harness
+// ever pushes or loads has an ID >= 1, the zero value and the value the harness
+// scribbles over its own batch buffers after the call (ID -1) are not elements.
+// A comparator is defined on the elements of the container; being handed
+// anything else (a fabricated zero value for a child that does not exist, a
+// slot of a buffer the caller has taken back) is a call the caller's
+// comparator may not survive.
+func guarded(c *core.Ctx, name string, cm NamedCmp[E]) func(a, b E) int {
+	return func(a, b E) int {
+		if a.ID <= 0 || b.ID <= 0 {
+			c.Fail("comparator", "foreign-argument", "%s called its comparator %s with (%v, %v): one of them was never pushed or loaded", name, cm.Name, a, b)
+		}
+		return cm.F(a, b)
+	}
+}
+
 func newHeapMon(c *core.Ctx, cm NamedCmp[E]) *HeapMon {
 	c.Begin("BinaryHeap", "NewWith", cm.Name)
-	h := binaryheap.NewWith[E](cm.F)
+	h := binaryheap.NewWith[E](guarded(c, "BinaryHeap", cm))
 	return &HeapMon{c: c, Name: "BinaryHeap", C: h, Push: h.Push, PushOp: "Push", Pop: h.Pop, PopOp: "Pop", Peek: h.Peek,
 		Iter: func() containers.ReverseIteratorWithIndex[E] { return h.Iterator() }, JSON: h, Cmp: cm, Bulk: true, Set: map[E]int{}}
 }
 
 func newPQMon(c *core.Ctx, cm NamedCmp[E]) *HeapMon {
 	c.Begin("PriorityQueue", "NewWith", cm.Name)
-	q := priorityqueue.NewWith[E](cm.F)
+	q := priorityqueue.NewWith[E](guarded(c, "PriorityQueue", cm))
 	return &HeapMon{c: c, Name: "PriorityQueue", C: q, Push: func(vs ...E) {
 		for _, v := range vs {
 			q.Enqueue(v)
@@ -212,6 +228,16 @@ func (m *HeapMon) Check() {
 	}
 	if m.N > 1500 && c.R.Intn(8) != 0 { // (half a second per Values() at 4000 elements)
 		return
+	}
+	if m.N <= 300 && c.R.Intn(6) == 0 {
+		// printing is a read like any other (fmt reaches it through Stringer)
+		if s, ok := m.C.(interface{ String() string }); ok {
+			c.Begin(m.Name, "String")
+			_ = s.String()
+			if sz := m.C.Size(); sz != m.N {
+				c.Fail("size", "after-String", "%s.Size() = %d after String(), multiset holds %d", m.Name, sz, m.N)
+			}
+		}
 	}
 	vs := m.C.Values()
 	m.checkPerm("values", vs, p)
